@@ -336,6 +336,51 @@ def run_c(tier):
     return res
 
 
+# ------------------------------------------------------------------ C11.g the very first query of an interpreter
+FIRST_KINDS = ('leaves', 'children', 'nodes', 'is_child', 'valid', 'match', 'all', 'tree')
+
+
+def ob_g(kind: int, a: int) -> bool:
+    """Each query as the FIRST call of a fresh interpreter (no earlier call may be needed to make it right)."""
+    cats = (3, 5, 6, 14, 0, 23, 31, 8)       # CORE, NOTE_REST, NOTE, SIGNATURES, STRUCTURAL, COMMENTS, IMAGE_ANNOTATIONS, PITCH
+    assume(0 <= kind < len(FIRST_KINDS) and 0 <= a < len(cats))
+    return _g_body(choose(kind, len(FIRST_KINDS)), cats[choose(a, len(cats))])
+
+
+@native
+def _g_body(kind, a):
+    import os
+    import subprocess
+    import sys
+    k = FIRST_KINDS[kind]
+    c = CATS[a]
+    code = {
+        'leaves': 'r = sorted(x.name for x in T.leaves(T[N]))',
+        'children': 'r = sorted(x.name for x in T.children(T[N]))',
+        'nodes': 'r = sorted(x.name for x in T.nodes(T[N]))',
+        'is_child': 'r = [x.name for x in T if T.is_child(child=x, parent=T[N])]',
+        'valid': 'r = sorted(x.name for x in T.valid(include=[T[N]]))',
+        'match': 'r = [x.name for x in T if T.match(x, include=[T[N]])]',
+        'all': 'r = sorted(x.name for x in T.all())',
+        'tree': 'r = [ln.split(" ")[-1].split(".")[-1] for ln in T.tree().split(chr(10))[1:]]',
+    }[k]
+    env = dict(os.environ)
+    root = os.path.dirname(os.path.dirname(os.path.abspath(kp.__file__)))
+    env['PYTHONPATH'] = root + (os.pathsep + env['PYTHONPATH'] if env.get('PYTHONPATH') else '')
+    pr = subprocess.run([sys.executable, '-c', f'import json\nfrom kernpy.core.tokens import TokenCategory as T\nN = {c.name!r}\n{code}\nprint(json.dumps(r))'],
+                        env=env, capture_output=True, text=True, timeout=300)
+    check(pr.returncode == 0, f'{k}({c.name}) as first call failed: {pr.stderr[-300:]}')
+    import json
+    got = json.loads(pr.stdout.strip().split('\n')[-1])
+    exp = {
+        'leaves': sorted(DOC.leaves(c.name)), 'children': sorted(DOC.kids[c.name]), 'nodes': sorted(DOC.descendants(c.name)),
+        'is_child': [n for n in NAMES if c.name in DOC.ancestors_or_self(n)], 'valid': sorted(DOC.closure(c.name)),
+        'match': [n for n in NAMES if set(DOC.closure(n)) & set(DOC.closure(c.name))], 'all': sorted(NAMES), 'tree': list(DOC.order),
+    }[k]
+    check(got == exp, f'{k}({c.name}) as the first call of a fresh interpreter = {got}, documented tree {exp}')
+    return True
+
+
 # members are concrete once the selector has been consumed by table lookup: the real functions then run untraced
 UNTRACE = [('kernpy.core.tokens', 'TokenCategoryHierarchyMapper.valid'), ('kernpy.core.tokens', 'TokenCategoryHierarchyMapper.match')]
 
@@ -345,6 +390,10 @@ def _shard2(a, b):
 
 
 OBLIGATIONS = [
+    Ob(id='C11.g', fn=ob_g, title='every query as the FIRST call of a fresh interpreter',
+       shard_of=lambda kind, a: kind, shards={'quick': 8, 'thorough': 8}, budget_s={'quick': 150, 'thorough': 600},
+       witnesses=[{'kind': 0, 'a': 0}], min_confirmed=60, enumerated='query kind (8), category (8 inner / leaf categories)',
+       realized_at=['fresh python interpreter per call (subprocess)'], bounds={'quick': '8 x 8 fresh interpreters', 'thorough': 'same'}),
     Ob(id='C11.a', fn=ob_a, title='hierarchy is a forest with each member once and the documented parents',
        budget_s={'quick': 60, 'thorough': 120}, witnesses=[{'a': 0}, {'a': 10}], min_confirmed=N,
        symbolic='category index', bounds={'quick': 'all 37 members', 'thorough': 'all 37 members'}),
